@@ -123,6 +123,22 @@ Extensions used by unit Hfile (C16: the physical I/O layer; each one only takes 
   * `sizeof(T)` of a typedef'd struct and `sizeof(global array)` are compiled against the headers and printed (like enum constants);
   * `x++` / `x--` on a SIGNED type narrower than int wraps like every conversion to such a type (was left unconverted).
 
+Extensions used by unit Repack (hrepack's option parser; each one only takes effect when its option is given):
+  * `strcmp(a, b)` / `strncmp(a, b, n)` -> `(strcmpC A B).getD 0` / `(strncmpC n A B).getD 0` with the check `….isSome` (`strcmpC`, `strncmpC` are
+    emitted into the unit: cells compared as unsigned chars up to the first difference / NUL / n cells, result -1 / 0 / 1 (C fixes only the
+    sign); running past the end of a region = undefined behaviour).  An argument may be a STRING LITERAL: the list of its bytes and its NUL.
+  * opts['libc_builtins']: `atoi(p)` -> `(atoiC P).getD 0` with the check `(atoiC P).isSome` (`atoiC`, emitted: white space, optional sign,
+    decimal digits up to the first other cell; `none` = the scan leaves the region or the value does not fit in an int - both undefined in C);
+    `isdigit(x)` -> `if 48 ≤ x ∧ x ≤ 57 then 1 else 0` with the check `-1 ≤ x ∧ x ≤ 255` (C11 7.4p1: any other argument value, e.g. a
+    negative plain char, is undefined behaviour; the unit is parsed with -D__NO_CTYPE so that glibc's table macro does not replace the call);
+    `sizeof` of an expression / of an integer array type `T[N]`.
+  * opts['row_structs'] = [T]: `T` is a struct whose ONLY member is an array of K integers (`typedef struct { char obj[K]; } obj_list_t`, member
+    and K read from clang's record layout).  A pointer local `T *p` is treated like an integer pointer whose region has K cells per element:
+    `p = malloc(bytes)` gives bytes / sizeof(cell) poison cells, `p[i].m` is the pointer to cell `i*K`, `sizeof(T)` = K * sizeof(cell).
+  * opts['poison_locals']: local arrays start with the poison value 170 in every cell (indeterminate in C) instead of 0, so that a function
+    that relies on zero-initialised stack memory breaks its refinement theorem.
+  * the functions of this unit `return NULL` on rejection (no `exit`): `retnull = true`, `done = true`; `printf` is in opts['ignore_calls'].
+
 Everything outside the supported subset makes the translator FAIL loudly (it never guesses): goto, switch, calls other
 than memcpy and the names in opts['ignore_calls'] (error reporting that does not touch the modelled state),
 address-of other than `&a[i]`, floating point, struct assignment, pointer-to-pointer arithmetic.
@@ -271,6 +287,7 @@ class Fn:
         self.notes = list(opts.get("_frag_notes", []))
         self.objects = {}        # struct-pointer locals bound to the result of opts['object_calls'] functions: an object outside the function
         self.oracle_sites = {}   # assumed call answered from a table: function -> id of its (single) call site
+        self.rowptr = {}         # pointer locals to a row struct (opts['row_structs']): name -> (member, cells per element, bytes per cell)
 
     # ---------------------------------------------------------------- fields
     def add_entry(self, n, ty):
@@ -373,6 +390,17 @@ class Fn:
                 # arithmetic on / comparison of / access through a pointer that is NULL is undefined
                 return (self.owned(own, self.region, reg), "s.%s" % self.pix(nm), ["s.%s = false" % self.nullf(nm)], [])
             return (self.owned(own, self.region, reg), "s.%s" % self.pix(nm), [], [])
+        if k == "MemberExpr" and self.opts.get("row_structs"):
+            b_ = self.skip(n["inner"][0])
+            bb_ = self.skip(b_["inner"][0]) if b_.get("kind") == "ArraySubscriptExpr" else {}
+            if bb_.get("kind") == "DeclRefExpr" and bb_["referencedDecl"]["name"] in self.rowptr:
+                # p[i].m, `p` a pointer to row structs: the cells i*K .. of the region of p (an access through it is checked as usual)
+                fld_, k_, _ = self.rowptr[bb_["referencedDecl"]["name"]]
+                if n["name"] != fld_:
+                    fail("%s: member %s of a row struct" % (self.name, n["name"]))
+                r, bi, c, e = self.pexpr(b_["inner"][0])
+                it, ic, ie = self.rvalue(b_["inner"][1])
+                return (r, "(%s * %d)" % (it, k_) if bi == "0" else "(%s + %s * %d)" % (bi, it, k_), c + ic, e + ie)
         if k == "MemberExpr":
             cur_ = self.member_cursor(n)
             if cur_ is not None:
@@ -836,6 +864,33 @@ class Fn:
             return "(Int.ofNat ((%s).getD (Int.toNat (%s)) 0))" % (self.globals[r[1:]], i)
         return "(%s.getD (Int.toNat (%s)) 0)" % (self.rt(r), i)
 
+    def row_struct(self, tname):
+        """opts['row_structs'] = [typedef names]: a struct whose ONLY member is an array of K integers (`typedef struct { char obj[K]; } T`).
+        An array of such structs is one region of K cells per element; `p[i].m` is the pointer to cell i*K of the region of `p`.
+        -> (member, K, bytes per cell) or None.  The member and K come from clang's record layout."""
+        if tname not in self.opts.get("row_structs", []):
+            return None
+        fl = record_fields_forced(self.opts, tname)
+        m = re.match(r"^(.*\S)\s*\[(\d+)\]$", fl[0][1]) if len(fl) == 1 else None
+        if not m or int_width(m.group(1)) is None:
+            fail("%s: %s is not a struct with a single integer-array member" % (self.name, tname))
+        return fl[0][0], int(m.group(2)), int_width(m.group(1))[1] // 8
+
+    def cstr_arg(self, a, fn):
+        """string argument of strcmp / strncmp / atoi: (Lean term of the cells from the pointer on, checks).  A string literal is the list of
+        its bytes followed by its NUL."""
+        x = self.skip(a)
+        if x.get("kind") == "StringLiteral":
+            return "([%s] : List Int)" % ", ".join(str(b) for b in c_string_bytes(x["value"], self.name) + [0]), []
+        r, i, c, e = self.pexpr(a)
+        if e:
+            fail("%s: side effect in %s arguments" % (self.name, fn))
+        if r.startswith("@"):
+            fail("%s: %s on a global integer table" % (self.name, fn))
+        if i == "0":
+            return self.rt(r), c
+        return "(%s.drop (Int.toNat (%s)))" % (self.rt(r), i), c + ["0 ≤ %s" % i]
+
     # ---------------------------------------------------------------- integer expressions -> (term, checks, effects)
     def rvalue(self, n):
         k = n.get("kind")
@@ -949,6 +1004,33 @@ class Fn:
                     fail("%s: side effect in strlen argument" % self.name)
                 rest = "(%s.drop (Int.toNat (%s)))" % (self.rt(r), i)
                 return "(Int.ofNat (%s.takeWhile (· ≠ 0)).length)" % rest, c + ["0 ≤ %s ∧ (0 : Int) ∈ %s" % (i, rest)], []
+            if nm in ("strncmp", "HDstrncmp", "__builtin_strncmp") or (nm in ("strcmp", "HDstrcmp", "__builtin_strcmp") and any(
+                    self.skip(a_).get("kind") == "StringLiteral" for a_ in n["inner"][1:3])):
+                # compares the NUL-terminated strings that start at the two pointers (a string literal is the list of its bytes and its NUL):
+                # -1 / 0 / 1 (C fixes only the sign); a read past the end of either region (no NUL before it, while the strings agree) is
+                # undefined behaviour.  strncmp(a, b, n) looks at no more than n cells.
+                A, ca = self.cstr_arg(n["inner"][1], nm)
+                B, cb = self.cstr_arg(n["inner"][2], nm)
+                self.opts["_uses"].add("strcmp")
+                if "strncmp" in nm:
+                    nt, nc, ne = self.rvalue(n["inner"][3])
+                    if ne:
+                        fail("%s: side effect in %s arguments" % (self.name, nm))
+                    self.opts["_uses"].add("strncmp")
+                    call = "(strncmpC (Int.toNat (%s)) %s %s)" % (nt, A, B)
+                    return "(%s.getD 0)" % call, ca + cb + nc + ["(0 : Int) ≤ %s" % nt, "%s.isSome = true" % call], []
+                return "((strcmpC %s %s).getD 0)" % (A, B), ca + cb + ["(strcmpC %s %s).isSome = true" % (A, B)], []
+            if nm in ("atoi", "__builtin_atoi") and self.opts.get("libc_builtins"):
+                # atoi(p) = (int)strtol(p, NULL, 10): white space, an optional sign, decimal digits up to the first other cell.  Undefined
+                # behaviour (checked): the scan runs past the end of the region, or the value is not representable in an int (C11 7.22.1p1)
+                A, ca = self.cstr_arg(n["inner"][1], nm)
+                self.opts["_uses"].add("atoi")
+                return "((atoiC %s).getD 0)" % A, ca + ["(atoiC %s).isSome = true" % A], []
+            if nm in ("isdigit", "__builtin_isdigit") and self.opts.get("libc_builtins"):
+                # isdigit(x): 1 for '0'..'9', else 0 (C fixes only zero / non-zero).  C11 7.4p1: the argument must be representable as an
+                # unsigned char or equal EOF, anything else is undefined behaviour (checked) - a negative plain `char` is such a value
+                t, c, e = self.rvalue(n["inner"][1])
+                return "(if 48 ≤ %s ∧ %s ≤ 57 then 1 else 0)" % (t, t), c + ["-1 ≤ %s ∧ %s ≤ 255" % (t, t)], e
             if nm in ("strcmp", "HDstrcmp", "__builtin_strcmp"):
                 # compares the NUL-terminated strings that start at the two pointers: -1 / 0 / 1 (C fixes only the sign); a read past the
                 # end of either region (no NUL before it, while the strings agree) is undefined behaviour
@@ -1079,6 +1161,16 @@ class Fn:
             fail("%s: call of %s inside an expression" % (self.name, nm))
         if k == "UnaryExprOrTypeTraitExpr" and n.get("name") == "sizeof":
             at = n.get("argType", {}).get("qualType")
+            if self.opts.get("libc_builtins"):
+                # sizeof of an expression (its type), of an integer array type `T[N]`, of a row struct (opts['row_structs'])
+                if not at and n.get("inner"):
+                    at = qt(n["inner"][0])
+                ma = re.match(r"^(.*\S)\s*\[(\d+)\]$", base_type(at or ""))
+                if ma and int_width(ma.group(1)) is not None:
+                    return str(int(ma.group(2)) * (int_width(ma.group(1))[1] // 8)), [], []
+                rs = self.row_struct(base_type(at or ""))
+                if rs:
+                    return str(rs[1] * rs[2]), [], []
             w = int_width(at) if at else None
             if w is None and at and ptr_elem(at) is not None:
                 return "8", [], []      # a pointer (LP64 host, as recorded in the trusted base)
@@ -2486,7 +2578,9 @@ class Fn:
             if k == "VarDecl" and ptr_elem(qt(n)) is not None and not re.search(r"\[\d+\]$", base_type(qt(n))):
                 init = [c for c in n.get("inner", []) if c.get("kind")]
                 el_ = ptr_elem(qt(n))
-                if int_width(el_) is None and el_ != "void" and (ptr_elem(el_) is None or (self.opts.get("object_calls") and self.is_struct_ptr(el_))):
+                if self.opts.get("row_structs") and self.row_struct(el_):
+                    self.rowptr[n["name"]] = self.row_struct(el_)      # treated like an integer pointer (index in cells)
+                elif int_width(el_) is None and el_ != "void" and (ptr_elem(el_) is None or (self.opts.get("object_calls") and self.is_struct_ptr(el_))):
                     # pointer to a struct: an ALIAS of (a member of) a struct parameter, bound by its single assignment
                     # (with opts['object_calls'] also a pointer to a pointer to a struct: it stands for the object `*p`)
                     self.alias_locals.add(n["name"])
@@ -2847,7 +2941,8 @@ class Fn:
         given = set(n for n, _ in ordered)
         inits = ["%s := %s" % (n, n) for n, _ in ordered]
         for r, size in self.local_regions.items():
-            inits.append(("%s := List.replicate %d 0" % (r, size)) if size else ("%s := []" % r))
+            # (opts['poison_locals']: a local array starts with the poison value 170 in every cell - indeterminate in C - instead of 0)
+            inits.append(("%s := List.replicate %d %d" % (r, size, 170 if self.opts.get("poison_locals") else 0)) if size else ("%s := []" % r))
             given.add(r)
         st = ["structure %s.St where" % self.name]
         for f in self.scalars:
@@ -2907,6 +3002,75 @@ class Fn:
         return "\n".join(out), params
 
 
+def c_string_bytes(lit, fn):
+    """bytes of a C string literal as clang spells it (`"…"` with escapes), without the terminating NUL"""
+    if len(lit) < 2 or lit[0] != '"' or lit[-1] != '"':
+        fail("%s: string literal %s" % (fn, lit))
+    body, out, i = lit[1:-1], [], 0
+    simple = {"n": 10, "t": 9, "r": 13, "\\": 92, '"': 34, "'": 39, "a": 7, "b": 8, "f": 12, "v": 11, "?": 63}
+    while i < len(body):
+        ch = body[i]
+        if ch != "\\":
+            out += list(ch.encode("utf-8"))
+            i += 1
+            continue
+        i += 1
+        if i >= len(body):
+            fail("%s: string literal %s" % (fn, lit))
+        e = body[i]
+        if e in simple:
+            out.append(simple[e]); i += 1
+        elif e in "01234567":
+            j = i
+            while j < len(body) and j < i + 3 and body[j] in "01234567":
+                j += 1
+            out.append(int(body[i:j], 8) % 256); i = j
+        elif e == "x":
+            j = i + 1
+            while j < len(body) and body[j] in "0123456789abcdefABCDEF":
+                j += 1
+            if j == i + 1:
+                fail("%s: string literal %s" % (fn, lit))
+            out.append(int(body[i + 1:j], 16) % 256); i = j
+        else:
+            fail("%s: escape \\%s in a string literal" % (fn, e))
+    return out
+
+
+
+STRNCMP_DEF = """/-- `strncmp`: like `strcmpC`, but at most `n` cells of each region are looked at (0 when they all agree) -/
+def strncmpC : Nat → List Int → List Int → Option Int
+  | 0, _, _ => some 0
+  | _ + 1, [], _ => none
+  | _ + 1, _, [] => none
+  | n + 1, a :: as, b :: bs =>
+    if a % 256 ≠ b % 256 then some (if a % 256 < b % 256 then -1 else 1)
+    else if a % 256 = 0 then some 0 else strncmpC n as bs
+"""
+
+ATOI_DEF = """/-- the digits of `atoi`: `acc` = value so far; stops at the first cell that is not '0'..'9'; `none` = the region ends first -/
+def atoiDigits : List Int → Int → Option Int
+  | [], _ => none
+  | c :: cs, acc => if 48 ≤ c ∧ c ≤ 57 then atoiDigits cs (acc * 10 + (c - 48)) else some acc
+
+/-- white space before the number (`isspace` in the C locale: blank, \\t \\n \\v \\f \\r) -/
+def atoiSkip : List Int → List Int
+  | [] => []
+  | c :: cs => if c = 32 ∨ (9 ≤ c ∧ c ≤ 13) then atoiSkip cs else c :: cs
+
+/-- `atoi` on the cells of a region from its start: white space, an optional sign, decimal digits up to the first other cell.
+    `none` = undefined behaviour: the scan leaves the region, or the value does not fit in an `int` -/
+def atoiC (l : List Int) : Option Int :=
+  match atoiSkip l with
+  | [] => none
+  | c :: cs =>
+    let r := if c = 45 then (atoiDigits cs 0).map (fun v => -v) else if c = 43 then atoiDigits cs 0 else atoiDigits (c :: cs) 0
+    match r with
+    | some v => if -2147483648 ≤ v ∧ v ≤ 2147483647 then some v else none
+    | none => none
+"""
+
+
 def record_fields(opts, tname):
     """[(field name, type)] of the record type `tname` (a typedef'd struct), from clang's record-layout dump of the unit's C file"""
     cache = opts.setdefault("_layouts", {})
@@ -2933,6 +3097,41 @@ def record_fields(opts, tname):
     tname = base_type(tname or "")
     if tname not in cache or not cache[tname]:
         fail("record layout of %s not found" % tname)
+    return cache[tname]
+
+
+def record_fields_forced(opts, tname):
+    """like record_fields, for a record type whose layout the C file itself never needs at compile time (clang dumps only the layouts it
+    computes): a scratch file that #includes the C file and declares `static char x[sizeof(T)]` is dumped instead"""
+    cache = opts.setdefault("_forced_layouts", {})
+    if tname not in cache:
+        import tempfile
+        with tempfile.TemporaryDirectory() as tmp:
+            src = os.path.join(tmp, "k.c")
+            with open(src, "w") as f:
+                f.write('#include "%s"\nstatic char h4_force_layout_[sizeof(%s)];\n' % (opts["_cpath"], tname))
+            cmd = ["clang-14", "-fsyntax-only", "-w", "-DH4_VERIF", "-Xclang", "-fdump-record-layouts"] + opts["_incs"] + [src]
+            r = subprocess.run(cmd, capture_output=True, text=True)
+        if r.returncode != 0:
+            fail("clang cannot dump the record layout of %s" % tname)
+        cur, fields = None, {}
+        for line in r.stdout.splitlines():
+            if line.startswith("*** Dumping AST Record Layout"):
+                cur = None
+                continue
+            m = re.match(r"^\s*\d+ \| (\s*)(.*\S)\s*$", line)
+            if not m:
+                continue
+            ind_, txt_ = len(m.group(1)), m.group(2)
+            if ind_ == 0:
+                cur = re.sub(r"^(struct|union) ", "", txt_)
+                fields[cur] = []
+            elif ind_ == 2 and cur is not None:
+                ty_, _, fn_ = txt_.rpartition(" ")
+                fields[cur].append((fn_, ty_))
+        if not fields.get(tname):
+            fail("record layout of %s not found" % tname)
+        cache[tname] = fields[tname]
     return cache[tname]
 
 
@@ -3210,8 +3409,9 @@ def translate_unit(repo, bdir, unit, cfile, fns, opts=None, _want_fns=False):
             params = [q.replace(long_ + "_", short_ + "_") for q in params]
         out.append(txt)
         sigs[fn] = params
-    if "strcmp" in opts["_uses"]:
-        out.insert(prelude_at, STRCMP_DEF)
+    for use_, def_ in (("atoi", ATOI_DEF), ("strncmp", STRNCMP_DEF), ("strcmp", STRCMP_DEF)):
+        if use_ in opts["_uses"]:
+            out.insert(prelude_at, def_)
     out.append("end H4.Gen.Fn.%s\n" % unit)
     if _want_fns:
         return "\n".join(out), sigs, {k_: v_ for k_, v_ in done_fns.items() if k_ not in used_fns}
